@@ -78,7 +78,7 @@ def build_pair(qcls, kw, sample, qstrs, act):
     qkw["activation"] = act
   L = getattr(Q, qcls)(**qkw)
   L.build((None,) + tuple(sample))
-  S = getattr(tf.keras.layers, spec["stock"])(**kw)
+  S = getattr(layers.K3().layers, spec["stock"])(**kw)
   S.build((None,) + tuple(sample))
   nw = len(layers.weight_shapes(L))
   if layers.weight_shapes(L) != layers.weight_shapes(S):
@@ -195,7 +195,7 @@ def others(run):
     for aq, act in ((None, None), ("quantized_bits(8,0,1,alpha=1)", None), ("quantized_bits(6,0,1,alpha=1)", "quantized_bits(8,3,1,alpha=1)")):
       idx += 1
       L = getattr(Q, cls)(average_quantizer=aq, activation=act, **kw)
-      S = getattr(tf.keras.layers, stock)(**kw)
+      S = getattr(layers.K3().layers, stock)(**kw)
       area = float(np.prod(sample[:2])) if cls.startswith("QGlobal") else float(np.prod(L.pool_size))
       rep = list(L.get_quantizers())
 
